@@ -569,7 +569,8 @@ fn skip_uvlc(reader: &mut BitReader) -> Option<()> {
             return None;
         }
     }
-    if leading_zeros > 0 {
+    // uvlc(): 32 or more leading zeros encode the maximum value and no value bits follow
+    if leading_zeros > 0 && leading_zeros < 32 {
         reader.skip_bits(leading_zeros)?;
     }
     Some(())
